@@ -38,25 +38,65 @@ Definition body_matches (b : body unit) (k : body_kind) : bool :=
   | _, _ => false
   end.
 
+(* what was observed for one request *)
+Inductive obs := Obs (status : N) (ran : bool) (cookie_set : bool) (bk : body_kind) (state_changed leaked : bool).
+
+Inductive hstep :=
+| HSet (opt fresh : bytes)
+| HReq (route : option nat) (m : meth) (ck : cookie_form) (authz : option bytes)
+       (tokens : list (option bytes)) (xf : xsrf_form) (sfs : option bytes) (o : obs).
+
 Inductive case :=
 | Req (route : option nat) (m : meth) (ck : cookie_form) (authz : option bytes)
       (tokens : list (option bytes)) (xf : xsrf_form) (sfs : option bytes) (stored : bytes)
       (* observed on the implementation *)
-      (status : N) (ran : bool) (cookie_set : bool) (bk : body_kind) (state_changed leaked : bool).
+      (status : N) (ran : bool) (cookie_set : bool) (bk : body_kind) (state_changed leaked : bool)
+| Hist (initial : bytes) (steps : list hstep).
 
-(* the harness hashes the plaintext test with argon2 when it runs in hash mode *)
-Definition corr_argon (_ pw : bytes) : bool := bytes_eqb pw [x74;x65;x73;x74].
+(* the harness uses two argon2 hashes (cheap parameters): A of the plaintext test, B of test2 *)
+Definition hash_A : bytes := [x24;x61;x72;x67;x6f;x6e;x32;x69;x64;x24;x76;x3d;x31;x39;x24;x6d;x3d;x38;x2c;x74;x3d;x31;x2c;x70;x3d;x31;x24;x63;x32;x46;x73;x64;x48;x4e;x68;x62;x48;x51;x24;x69;x65;x56;x67;x47;x35;x79;x73;x54;x4a;x46;x78;x34;x6b;x2f;x4b;x76;x6d;x43;x39;x61;x51].
+Definition hash_B : bytes := [x24;x61;x72;x67;x6f;x6e;x32;x69;x64;x24;x76;x3d;x31;x39;x24;x6d;x3d;x38;x2c;x74;x3d;x31;x2c;x70;x3d;x31;x24;x63;x32;x46;x73;x64;x48;x4e;x68;x62;x48;x51;x79;x24;x45;x4b;x6a;x76;x30;x30;x34;x58;x4c;x2b;x46;x42;x72;x7a;x6f;x54;x4d;x79;x6f;x4a;x74;x50;x5a;x6e;x31;x2f;x34;x2b;x61;x52;x65;x79;x38;x6b;x5a;x69;x49;x51;x67;x54;x77;x51;x73].
+Definition corr_argon (stored pw : bytes) : bool :=
+  (bytes_eqb stored hash_A && bytes_eqb pw [x74;x65;x73;x74])
+  || (bytes_eqb stored hash_B && bytes_eqb pw [x74;x65;x73;x74;x32]).
+Definition corr_hash_ok (h : bytes) : bool := bytes_eqb h hash_A || bytes_eqb h hash_B.
 Definition corr_inner (_ : nat) (_ : meth) (s : unit) (_ : request) : unit * (N * unit) := (s, (200%N, tt)).
 
-Definition check_case (c : case) : bool :=
-  match c with
-  | Req route m ck authz tokens xf sfs stored status ran cookie_set bk state_changed leaked =>
-      let q := Build_request route m (cookie_value ck) authz tokens (xsrf_ok xf) sfs in
-      let rs := snd (handle unit unit corr_inner corr_argon stored mitmweb tt q) in
+Definition check_resp (rs : response unit) (m : meth) (o : obs) : bool :=
+  match o with
+  | Obs status ran cookie_set bk state_changed leaked =>
       match rs_body rs with
       | BInner _ => ran && Bool.eqb cookie_set (rs_cookie rs)
       | b => negb ran && N.eqb status (rs_status rs) && Bool.eqb cookie_set (rs_cookie rs)
              && negb state_changed && negb leaked
              && (meth_eqb m HEAD || body_matches b bk)
       end
+  end.
+
+Definition step_of (h : hstep) : step :=
+  match h with
+  | HSet opt fresh => SetPassword opt fresh
+  | HReq route m ck authz tokens xf sfs _ =>
+      Request (Build_request route m (cookie_value ck) authz tokens (xsrf_ok xf) sfs)
+  end.
+
+Fixpoint check_all (rs : list (response unit)) (hs : list hstep) : bool :=
+  match hs with
+  | [] => match rs with [] => true | _ => false end
+  | HSet _ _ :: r => check_all rs r
+  | HReq _ m _ _ _ _ _ o :: r =>
+      match rs with
+      | x :: rs' => check_resp x m o && check_all rs' r
+      | [] => false
+      end
+  end.
+
+Definition check_case (c : case) : bool :=
+  match c with
+  | Req route m ck authz tokens xf sfs stored status ran cookie_set bk state_changed leaked =>
+      let q := Build_request route m (cookie_value ck) authz tokens (xsrf_ok xf) sfs in
+      let rs := snd (handle unit unit corr_inner corr_argon stored mitmweb tt q) in
+      check_resp rs m (Obs status ran cookie_set bk state_changed leaked)
+  | Hist initial steps =>
+      check_all (run_history unit unit corr_inner corr_argon corr_hash_ok mitmweb (false, initial) tt (map step_of steps)) steps
   end.
